@@ -330,6 +330,10 @@ int main(int argc, char** argv)
     unsigned maxlen = static_cast<unsigned>(std::atoi(argv[4]));
     std::uint64_t seed = std::strtoull(argv[5], nullptr, 10);
     inner_delay_permille = std::atoi(argv[6]);
+    // rounds mode: every `per_round` records all threads meet at a barrier and the main thread checks
+    // that every byte of every record issued so far has reached the stream (a record that is only
+    // delivered when somebody logs again is lost as far as a quiescent program is concerned)
+    unsigned per_round = argc > 7 ? static_cast<unsigned>(std::atoi(argv[7])) : 0;
 
     std::size_t cap = static_cast<std::size_t>(threads) * records * (maxlen + 64) + 4096;
     racy_buf outbuf(cap), errbuf(cap);
@@ -350,6 +354,12 @@ int main(int argc, char** argv)
 
     std::atomic<bool> go{ false };
     std::atomic<unsigned> ready{ 0 };
+    std::atomic<unsigned> arrived{ 0 }, generation{ 0 };
+    std::atomic<long long> issued_bytes{ 0 };
+    std::atomic<long> rounds_checked{ 0 };
+    std::atomic<bool> stranded{ false };
+    std::atomic<long> stranded_round{ -1 };
+    const long long sinks_per_record = topo == 3 ? 2 : 1;
     std::vector<std::thread> ts;
     for (unsigned t = 0; t < threads; ++t)
     {
@@ -383,9 +393,39 @@ int main(int argc, char** argv)
                     break;
                 }
                 in_statement.fetch_sub(1, std::memory_order_relaxed);
+                {
+                    // STX tid:seq:len:payload ETX
+                    char head[64];
+                    int hl = std::snprintf(head, sizeof head, "%u:%u:%u:", t, s, len);
+                    issued_bytes.fetch_add((2 + hl + static_cast<long long>(len)) * sinks_per_record,
+                                           std::memory_order_relaxed);
+                }
                 std::uint64_t r = splitmix(rng);
-                if (r % 8 == 0)
+                if (r % 8 == 0 && !per_round)
                     small_delay(r >> 8);
+                if (per_round && (s + 1) % per_round == 0)
+                {
+                    // sense-reversing barrier; the last thread to arrive checks quiescent completeness
+                    unsigned gen = generation.load(std::memory_order_acquire);
+                    if (arrived.fetch_add(1, std::memory_order_acq_rel) + 1 == threads)
+                    {
+                        long long have = static_cast<long long>(outbuf.cursor + outbuf.stage_len + errbuf.cursor +
+                                                                errbuf.stage_len);
+                        if (have != issued_bytes.load(std::memory_order_relaxed) && !stranded.load())
+                        {
+                            stranded.store(true);
+                            stranded_round.store(static_cast<long>(s / per_round));
+                        }
+                        rounds_checked.fetch_add(1, std::memory_order_relaxed);
+                        arrived.store(0, std::memory_order_relaxed);
+                        generation.store(gen + 1, std::memory_order_release);
+                    }
+                    else
+                    {
+                        while (generation.load(std::memory_order_acquire) == gen)
+                            sched_yield();
+                    }
+                }
             }
         });
     }
@@ -406,6 +446,9 @@ int main(int argc, char** argv)
     if (outbuf.overlaps.load() || errbuf.overlaps.load())
         violations.push_back("two-threads-inside-the-stream-buffer cout=" + std::to_string(outbuf.overlaps.load()) +
                              " cerr=" + std::to_string(errbuf.overlaps.load()));
+    if (stranded.load())
+        violations.push_back("record-not-delivered-at-quiescence round " + std::to_string(stranded_round.load()) +
+                             " (all threads idle at a barrier, issued bytes != bytes that reached the stream)");
     if (outbuf.overruns.load() || errbuf.overruns.load())
         violations.push_back("capture-overrun (cursor corrupted by concurrent writers)");
     if (uses_out)
@@ -423,11 +466,11 @@ int main(int argc, char** argv)
     for (auto& v : violations)
         std::printf("V %s\n", v.c_str());
     std::printf("RESULT topology=%d threads=%u records=%ld entries=%ld contended=%ld overlaps=%ld switches=%ld "
-                "order_hash=%016llx syncs=%ld\n",
+                "order_hash=%016llx syncs=%ld rounds=%ld\n",
                 topo, threads, static_cast<long>(order_out.size() + order_err.size()),
                 outbuf.entries.load() + errbuf.entries.load(), outbuf.contended.load() + errbuf.contended.load(),
                 outbuf.overlaps.load() + errbuf.overlaps.load(), sw_out + sw_err,
-                static_cast<unsigned long long>(h), outbuf.syncs.load() + errbuf.syncs.load());
+                static_cast<unsigned long long>(h), outbuf.syncs.load() + errbuf.syncs.load(), rounds_checked.load());
     std::string head = (order_out.empty() ? order_err : order_out).substr(0, 60);
     std::printf("ORDER %s\n", head.c_str());
     return violations.empty() ? 0 : 1;
